@@ -73,6 +73,7 @@ def handle (line : String) : String :=
   | "C09" :: args => Finite.handleFinite args
   | "PP" :: args => PerfCalc.handlePP args
   | ["MSKILL", rate, cols, take, objs] => SkillWire.handleMSKILL rate cols take objs
+  | ["CSKILL", rate, cs, take, objs] => SkillWire.handleCSKILL rate cs take objs
   | ["SLEV", st, sd, v, td, tot, sp] => SliderEvents.handleSLEV st sd v td tot sp
   | ["OSLD", v, sm, tr, sl] => SliderEvents.handleOSLD v sm tr sl
   | ["JUICE", v, sm, tr, objs] => SliderEvents.handleJUICE v sm tr objs
